@@ -32,8 +32,6 @@ def check_messages(messages, causal=True, remote_positions=None):
         require(has_mt != has_at, "field:type", lambda: "message %d has message_type=%r action_type=%r" % (idx, m.get("message_type"), m.get("action_type")))
         if has_at:
             require(m.get("action_status") in STATUSES, "field:action_status", lambda: "message %d: %r" % (idx, m.get("action_status")))
-        else:
-            require("action_status" not in m, "field:action_status", lambda: "plain message %d carries action_status" % idx)
         key = (m["task_uuid"], tuple(lvl))
         require(key not in seen, "duplicate-level", lambda: "messages %d and %d share (task_uuid, task_level) %r" % (seen[key], idx, key))
         seen[key] = idx
